@@ -933,7 +933,7 @@ class DecayGroup(object):
             decay_chain = DecayChain(list(decays))
             tmp = {}
             for j in chains:
-                if decay_chain.topology_same(j):
+                if decay_chain.topology_same(j, identical=False):
                     chain_map = decay_chain.topology_map(j)
                     tmp[j] = chain_map
             chain_maps.append(tmp)
